@@ -32,6 +32,7 @@ var transparentPrefixes = []string{
 	"github.com/tendermint/tendermint/proto/tendermint/crypto",
 	"github.com/tendermint/tendermint/abci/types",
 	"github.com/icza/gog", // tiny generic helpers (If, Ptr, ...)
+	"slices",              // generic slice helpers of the standard library (plain loops)
 }
 
 func (e *Engine) transparentPkg(path string) bool {
